@@ -502,7 +502,7 @@ Print Assumptions C15_cc_config_one_step_behind_partial.
 (* non-vacuity of the membership-change model: in a 3-voter cluster node 1 is elected, proposes
    "add voter 4" (payload 104), replicates it to node 2, commits it and from then on decides with
    the configuration {1,2,3,4} *)
-Definition ccx_boot : conf := mkC [1; 2; 3] [] false.
+Definition ccx_boot : conf := mkC [1; 2; 3] [] false [].
 Definition ccx_app : msg := mkMsg MsgApp 1 2 1 0 0 [(1, 0); (1, 104)] 0 false.
 Definition ccx_ack : msg := mkMsg MsgAppResp 2 1 1 0 2 [] 0 false.
 Definition ccx_trace : list (nat * event * list msg) :=
@@ -517,22 +517,25 @@ Example C15_ex_cc_run : exists x,
   cxreachable ccx_boot false x /\
   n_role (fst (cx_nodes x 1)) = Leader /\ n_commit (fst (cx_nodes x 1)) = 2 /\
   n_log (fst (cx_nodes x 1)) = [(1, 0); (1, 104)] /\
-  node_cfg ccx_boot (fst (cx_nodes x 1)) = mkC [1; 2; 3; 4] [] false /\
+  node_cfg ccx_boot (fst (cx_nodes x 1)) = mkC [1; 2; 3; 4] [] false [] /\
   node_cfg ccx_boot (fst (cx_nodes x 2)) = ccx_boot.
 Proof.
   assert (H : exists x, run_cc ccx_boot false cx_init ccx_trace = Some x /\
     n_role (fst (cx_nodes x 1)) = Leader /\ n_commit (fst (cx_nodes x 1)) = 2 /\
     n_log (fst (cx_nodes x 1)) = [(1, 0); (1, 104)] /\
-    node_cfg ccx_boot (fst (cx_nodes x 1)) = mkC [1; 2; 3; 4] [] false /\
+    node_cfg ccx_boot (fst (cx_nodes x 1)) = mkC [1; 2; 3; 4] [] false [] /\
     node_cfg ccx_boot (fst (cx_nodes x 2)) = ccx_boot).
   { eexists. split; [vm_compute; reflexivity|]. vm_compute. repeat split. }
   destruct H as (x & Hrun & Hrest). exists x. split; [|exact Hrest].
   apply (run_cc_reachable ccx_boot false ccx_trace cx_init x); [apply CXR_init|exact Hrun].
 Qed.
 
-Example C15_ex_conf_step : apply_cc ccx_boot (CcJoint 4 3) = Some (mkC [1; 2; 4] [1; 2; 3] true)
-  /\ apply_cc (mkC [1; 2; 4] [1; 2; 3] true) CcLeave = Some (mkC [1; 2; 4] [] false)
-  /\ apply_cc ccx_boot (CcRemove 2) = Some (mkC [1; 3] [] false).
+Example C15_ex_conf_step : apply_cc ccx_boot (CcJoint 4 3) = Some (mkC [1; 2; 4] [1; 2; 3] true [])
+  /\ apply_cc (mkC [1; 2; 4] [1; 2; 3] true []) CcLeave = Some (mkC [1; 2; 4] [] false [])
+  /\ apply_cc ccx_boot (CcRemove 2) = Some (mkC [1; 3] [] false [])
+  /\ apply_cc ccx_boot (CcAddLearner 4) = Some (mkC [1; 2; 3] [] false [4])
+  /\ apply_cc (mkC [1; 2; 3] [] false [4]) (CcAdd 4) = Some (mkC [1; 2; 3; 4] [] false [])
+  /\ apply_cc ccx_boot (CcAddLearner 2) = Some (mkC [1; 3] [] false [2]).
 Proof. repeat split. Qed.
 
 (* ------------------------------------------------------------------ Config.PreVote
@@ -545,7 +548,9 @@ Proof. repeat split. Qed.
    environment: the event PvStepDown (a leader that finds no active quorum on a tick becomes a
    follower of its term) and the non-delivery of a vote request (leader lease); the model does
    not say WHEN they happen, so the theorems below hold for every CheckQuorum run, while
-   CheckQuorum's liveness is not covered. *)
+   CheckQuorum's liveness is not covered.  Leadership transfer likewise: MsgTimeoutNow (PT) and the
+   forwarded MsgTransferLeader (PL) are messages of the model, a leader may send PT at any time, a
+   follower that receives it campaigns for real at once. *)
 Theorem C15_prevote_transparent : forall c0 c1 F, In (c0, c1) F -> forall x, pxreachable c0 c1 x ->
   exists s, mreachable F s /\ (forall y, nodes s y = fst (px_nodes x y)) /\ msgs s = base_of (px_msgs x).
 Proof.
@@ -596,4 +601,11 @@ Example C15_ex_checkquorum_stepdown :
   let l := fst (exec_pv [1] [] 1 PvCampaign (init_node, false)) in
   let f := fst (exec_pv [1] [] 1 PvStepDown l) in
   n_role (fst l) = Leader /\ n_role (fst f) = Follower /\ n_term (fst f) = n_term (fst l) /\ n_vote (fst f) = n_vote (fst l) /\ n_log (fst f) = n_log (fst l) /\ n_commit (fst f) = n_commit (fst l).
+Proof. vm_compute. repeat split. Qed.
+
+(* non-vacuity of the leadership-transfer messages: a follower that receives MsgTimeoutNow of a
+   higher term becomes a candidate of the term after it (no pre-vote) *)
+Example C15_ex_timeout_now :
+  let f := fst (exec_pv [1; 2; 3] [] 2 (PvRecv (PT 1 2 3)) (init_node, false)) in
+  n_role (fst f) = Candidate /\ n_term (fst f) = 4 /\ n_vote (fst f) = Some 2 /\ snd f = false.
 Proof. vm_compute. repeat split. Qed.
